@@ -21,6 +21,7 @@ PoolOf(kind) ==
     [] kind = "bytes" -> {Byt(i, b) : i \in {0, 1, 2}, b \in {1, 2}}
     [] kind = "dict"  -> {Ent(k, v) : k \in {N(0), N(1), S({}), Str(<<97>>, 0)}, v \in Vals}
     [] kind = "gen"   -> {Mk2("at", N(i), "x", v) : i \in {0, 1, 2}, v \in Vals}
+    [] kind = "gen0"  -> {Mk2("at", N(i), "x0", v) : i \in {1, 2}, v \in {N(5), N(6)}}   \* value attribute "0" sorts before @
 Lits == UNION {{S(x) : x \in {y \in SUBSET PoolOf(k) : Cardinality(y) <= MaxLit}} : k \in Kinds}
 
 KindsOf(c) == {ValAttr(t) : t \in c.s}          \* ++ can mix kinds in one collection
